@@ -96,7 +96,14 @@ class B:
             dst.append(f"mon.write(len({name}))")
             return
         i = self.draw(st.integers(-n, n - 1))
-        dst.append(f"mon.write({name}[{i}])")
+        form = self.draw(st.sampled_from(["lit", "lit", "len_minus", "expr"]))
+        if form == "len_minus":
+            # counted from the end through len(): any k in 1..2n is a valid Python index (it may still be negative)
+            dst.append(f"mon.write({name}[len({name}) - {self.draw(st.integers(1, 2 * n))}])")
+        elif form == "expr":
+            dst.append(f"mon.write({name}[{i} + len({name}) - len({name})])")
+        else:
+            dst.append(f"mon.write({name}[{i}])")
         if self.draw(st.booleans()):
             dst.append(f"mon.write(len({name}))")
 
